@@ -79,6 +79,8 @@ func Grid(k Kind) []interface{} {
 		for _, f := range []float64{0, 1, -1, 0.5, -2.5, 255, 256, 65536, 1e10, -1e10, 3e38, 1e300, math.MaxInt64, 5e-324, 16777217, 0.1} {
 			add(f)
 		}
+		out = append(out, reflect.ValueOf(math.NaN()).Convert(t).Interface(), reflect.ValueOf(math.Inf(1)).Convert(t).Interface(),
+			reflect.ValueOf(math.Inf(-1)).Convert(t).Interface(), reflect.ValueOf(math.Copysign(0, -1)).Convert(t).Interface())
 	case k <= KUint64:
 		for _, u := range []uint64{0, 1, 2, 127, 128, 255, 256, 32767, 32768, 65535, 65536, math.MaxInt32, math.MaxUint32, math.MaxInt64, math.MaxUint64, 16777217} {
 			add(u)
